@@ -419,8 +419,23 @@ func (m *metricMap) deleteByLabels(labels Labels, curry []curriedLabelValue) int
 			// Didn't find matching labels in this metric slice.
 			continue
 		}
-		delete(m.metrics, h)
+		// Remove all matching metrics, but keep the non-matching ones that
+		// ended up in the same slice because of a hash collision.
+		kept := make([]metricWithLabelValues, 0, len(metrics)-1)
+		kept = append(kept, metrics[:i]...)
 		numDeleted++
+		for _, metric := range metrics[i+1:] {
+			if matchPartialLabels(m.desc, metric.values, labels, curry) {
+				numDeleted++
+				continue
+			}
+			kept = append(kept, metric)
+		}
+		if len(kept) == 0 {
+			delete(m.metrics, h)
+		} else {
+			m.metrics[h] = kept
+		}
 	}
 
 	return numDeleted
